@@ -347,6 +347,9 @@ class World:
     def on_loop_exception(self, pid, context):
         exc = context.get('exception')
         self.loop_exceptions.append((pid, self.steps, context.get('message'), repr(exc)))
+        if os.environ.get('DSIM_TRACEBACK') and exc is not None:
+            import traceback
+            traceback.print_exception(exc)
 
     # -- programs
     def launch(self, main_factory):
